@@ -750,6 +750,9 @@ where
             }
         };
 
+        #[cfg(rs_store_verif)]
+        crate::verif::pt("sub.spawned", 0, tx.vid, None, 0);
+
         // subscribe to the store
         let channel_subscriber = Arc::new(ChanneledSubscriber::new(handle, tx));
         let subscription = self.add_subscriber(channel_subscriber.clone());
